@@ -81,6 +81,36 @@ def repeatLoop (s : Nat) (d : Data) : Nat → Prog
 def oRepeat (d : Data) : Obsv := fun s => repeatLoop s d 100000
 
 def oDefer (f : Obsv) : Obsv := fun s => f.sub s
+
+/-! ### scheduler-based sources and operators over the DEFAULT scheduler
+`DefaultScheduler::post(f)` is `f()` and `abort()` does nothing (src/schedulers/default_scheduler.rs), so the
+closures of observe_on.rs / subscribe_on.rs / interval.rs / timer.rs run inline, in program order. -/
+
+/-- `IScheduler::post` of the default scheduler: the task runs synchronously, inside `post` -/
+def dPost (task : Prog) : Prog := task
+/-- `IScheduler::abort` of the default scheduler -/
+def dAbort : Prog := .done
+
+/-- interval.rs: `post(loop { sleep; if !s.is_subscribed() { break }; s.next(n); n += 1 }; abort())` -/
+def intervalLoop (s : Nat) : Nat → Nat → Prog
+  | _, 0 => .done
+  | n, f+1 => .obsIsSub s fun b => if b then .obsNext s (.int n) (intervalLoop s (n + 1) f) else dAbort
+def oIntervalD : Obsv := fun s => dPost (intervalLoop s 0 100000)
+
+/-- timer.rs: `post(sleep; s.next(()); s.complete(); abort())` -/
+def oTimerD : Obsv := fun s => dPost (.obsNext s .unit (.obsComplete s dAbort))
+
+/-- observe_on.rs: one controller, `set_on_finalize(abort)`, every event of the source is posted -/
+def oObserveOnD (src : Obsv) : Obsv := fun s =>
+  sctlNew s fun sc => sc.setOnFinalize dAbort ;;
+  sc.newObserver (fun _ x => dPost (sc.sinkNext x)) (fun _ e => dPost (sc.sinkError e))
+    (fun serial => dPost (sc.sinkComplete serial)) fun o => src.sub o
+
+/-- subscribe_on.rs: one controller, `set_on_finalize(abort)`, the subscription of the source is posted -/
+def oSubscribeOnD (src : Obsv) : Obsv := fun s =>
+  sctlNew s fun sc => sc.setOnFinalize dAbort ;;
+  dPost (sc.newObserver (fun _ x => sc.sinkNext x) (fun _ e => sc.sinkError e)
+    (fun serial => sc.sinkComplete serial) fun o => src.sub o)
 def oStart (d : Data) : Obsv := oJust d
 
 /-! ### instrumented sources of the harness -/
